@@ -257,7 +257,38 @@ def page_reference_rule(chk, facts, rule):
     return n
 
 
+def rule_r10(chk, facts):
+    chk.rule('C14-R10', 'code65.c: an operand is shortened to its zero-page form (ChkZeroMode) only on paths on which the '
+             'size prefix was found absent ("ZeroMode == 0"): after ">" the absolute form is what the programmer asked '
+             'for, and zp,X wraps inside page 0 where abs,X does not', min_instances=3)
+    f = facts.func('code65.c', 'DecodeAdr')
+    # the prefix variable: the local filled by ChkZero(&arg, &var)
+    zvars = set()
+    for b, i, ln, c in f.calls('ChkZero'):
+        if len(c[2]) > 1:
+            a = nocast(c[2][1])
+            if a[0] == 'u' and a[1] == '&':
+                zvars.add(nocast(a[2]))
+    if not zvars:
+        raise AnalysisBroken('code65.c: size prefix variable not found')
+    n = 0
+    for b, i, ln, c in f.calls('ChkZeroMode'):
+        n += 1
+
+        def absent(l):
+            return edge_has_atom(l, lambda a: (a[0] == 'z' and a[1] in zvars) or
+                                 (a[0] == 'cmp' and a[1] == '==' and a[2] in zvars and const_val(a[3]) == 0))
+        ok, w = f.guarded(b, i, absent)
+        chk.ob('C14-R10', 'code65.c:DecodeAdr:ChkZeroMode@%d' % n, ok, f.loc(ln),
+               'only without a size prefix' if ok else
+               'the zero-page form is chosen on a path (%s) that does not exclude the ">" prefix: "lda >$12,x" is encoded '
+               'B5 12 instead of BD 12 00' % ' '.join(w[-4:]))
+    if n < 3:
+        raise AnalysisBroken('code65.c: only %d zero-page shortenings found' % n)
+
+
 def run(chk, facts, info):
+    rule_r10(chk, facts)
     rule_r1(chk, facts)
     c15.rule_fold(chk, facts, rule='C14-R2', units=None)
     rule_r3(chk, facts)
